@@ -33,7 +33,8 @@ for f in sorted(glob.glob("seeded/*/meta.json")):
     last = {}
     suite = demo = "?"
     for r in runs:
-        suite = "passes" if r.get("suite_passes") else "FAILS"
+        ok = r.get("suite_passes") or ("[100%]" in str(r.get("suite", "")) and "F" not in str(r.get("suite", "")))
+        suite = "passes" if ok else "FAILS"
         demo = "ok" if r.get("demo_ok") else "not ok"
         for cid, c in r.get("checks", {}).items():
             if c["caught"] or cid not in last:
